@@ -259,8 +259,38 @@ CliC15(ev) ==
         ELSE IF Prop = "C07" /\ stage = "parse-failure" /\ ev.lib.bad # <<>> /\ Len(ev.lib.bad) <= 60 /\ ~ContainsSub(ev.stdout, ev.lib.bad)
              THEN rec("diagnostic does not name the offending argument") ELSE {})
 
+(* C07 (library idiom): for every ordering of a multiset the sorted output is the same    *)
+(* multiset of texts, every adjacent pair is non-decreasing under the logged Compare        *)
+(* matrix, and the sequence of equivalence classes is the same for every ordering.          *)
+SortC07(ev) ==
+  LET n == Len(ev.items)
+      Ix(t) == CHOOSE i \in 1..n : ev.items[i] = t
+      known(t) == \E i \in 1..n : ev.items[i] = t
+      count(q, t) == Cardinality({i \in 1..Len(q) : q[i] = t})
+      cls(i) == Cardinality({y \in 1..n : ev.m[y][i] < 0})
+      inOf(p) == [i \in 1..Len(p) |-> ev.items[p[i]]]
+      okperm(q) == Len(ev.outs[q]) = Len(ev.perms[q])
+                   /\ \A i \in 1..Len(ev.outs[q]) : known(ev.outs[q][i])
+                                                     /\ count(ev.outs[q], ev.outs[q][i]) = count(inOf(ev.perms[q]), ev.outs[q][i])
+      nondecr(q) == \A i \in 1..Len(ev.outs[q]) - 1 : ev.m[Ix(ev.outs[q][i])][Ix(ev.outs[q][i + 1])] <= 0
+      clsseq(q) == [i \in 1..Len(ev.outs[q]) |-> cls(Ix(ev.outs[q][i]))]
+      Q == 1..Len(ev.outs)
+      \* the order laws are claimed on sets on which the ecosystem's order can be a total preorder at all:
+      \* one alpm pkgrel partition, no order-irregular members (KF-alpm-01 / KF-maven-01)
+      ordered == (\A i, k \in 1..Len(ev.part) : ev.part[i] = ev.part[k])
+                 /\ \A i \in 1..n : ~OrderIrregular(ev.eco, S2C(ev.items[i]))
+      rec(why, q) == [prop |-> "C07", eco |-> ev.eco, why |-> why, input |-> inOf(ev.perms[q]), output |-> ev.outs[q], known |-> ""] IN
+  {rec("output is not the input multiset", q) : q \in {q \in Q : ~okperm(q)}}
+  \cup {rec("adjacent output pair out of order", q) : q \in {q \in Q : ordered /\ okperm(q) /\ ~nondecr(q)}}
+  \cup {rec("class sequence depends on the input order", q)
+          : q \in {q \in Q : ordered /\ okperm(q) /\ okperm(1) /\ Len(ev.perms[q]) = Len(ev.perms[1])
+                               /\ {ev.perms[q][i] : i \in 1..Len(ev.perms[q])} = {ev.perms[1][i] : i \in 1..Len(ev.perms[1])}
+                               /\ clsseq(q) # clsseq(1)}}
+  \cup {[prop |-> "C07", eco |-> ev.eco, why |-> "panic", input |-> <<ev.panics[i]>>, output |-> <<>>, known |-> ""] : i \in 1..Len(ev.panics)}
+
 Judge(ev) ==
   CASE ev.k = "matrix" /\ Prop = "C01" -> MatrixC01(ev)
+    [] ev.k = "sortset" /\ Prop = "C07" -> SortC07(ev)
     [] ev.k = "cli" /\ Prop \in {"C15", "C07"} -> CliC15(ev)
     [] ev.k = "roundtrip" /\ Prop = "C18" -> RtC18(ev)
     [] ev.k = "verswf" /\ Prop = "C17" -> VersWfC17(ev)
